@@ -196,6 +196,7 @@ type executor struct {
 
 	composed      map[string]bool        // short encodings already cut in every way (per unit)
 	cutAll        int                    // encodings up to this length are cut in EVERY way
+	ctx           func() string          // describes the value being processed (for a panic report)
 	fitNote       map[string]interface{} // replay data of a payload-fitted value (see fit)
 	curSize       int                    // size of the input / encoding of the case being executed (the smallest failing one is reported)
 	lastPairRoot  *root
@@ -379,6 +380,7 @@ func (x *executor) roundTrip(r *root, p reflect.Value, devs []string, choices []
 		return m
 	}
 	x.res.Counters["values"]++
+	x.ctx = func() string { return fmt.Sprintf("%s %v (%s)", r.Name, devs, tag) }
 	var e1 []byte
 	var err error
 	c := guard(func() { e1, err = ser.EncodeToBytes(p.Interface()) })
@@ -650,9 +652,59 @@ func (x *executor) corpus(r *root, ep string, withDev bool, maxDev int, depthLim
 	})
 }
 
-func (x *executor) run(u *unit) *unitResult {
+// classifyPanic looks at the innermost frame that is neither runtime nor reflect: repository code or harness code.
+func classifyPanic(stack []byte) (repo bool, site string) {
+	for _, l := range strings.Split(string(stack), "\n") {
+		if strings.HasPrefix(l, "\t") || !strings.Contains(l, "(") || strings.HasPrefix(l, "goroutine ") {
+			continue
+		}
+		f := l[:strings.LastIndex(l, "(")]
+		switch {
+		case strings.HasPrefix(f, "runtime.") || strings.HasPrefix(f, "runtime/") || strings.HasPrefix(f, "reflect.") || strings.HasPrefix(f, "internal/") || f == "panic":
+			continue
+		case strings.Contains(f, "github.com/lianxiangcloud/linkchain/"):
+			return true, strings.TrimPrefix(f, "github.com/lianxiangcloud/linkchain/")
+		default:
+			return false, f
+		}
+	}
+	return false, "?"
+}
+
+func (x *executor) run(u *unit) (res *unitResult) {
+	// Every encoder / decoder call of the repository is individually guarded (guard): a panic there is a violation
+	// or an observation of its own. What arrives HERE is a panic outside those calls: in repository code reached
+	// otherwise (reported as a violation with its site), or in the harness (a harness error that names the value).
+	defer func() {
+		if e := recover(); e != nil {
+			stack := debug.Stack()
+			repo, site := classifyPanic(stack)
+			where := fmt.Sprintf("unit kind %s", u.Kind)
+			if u.Kind != "maporder" && u.Kind != "audit" && u.Root < len(x.roots) {
+				where += ", type " + x.roots[u.Root].Name
+			}
+			if building != nil {
+				where += ", while BUILDING " + building()
+			} else if x.ctx != nil {
+				where += ", value " + x.ctx()
+			}
+			if repo {
+				x.curSize = 0
+				x.violation("panic-in-repository-code:"+site+":"+errClass(fmt.Sprint(e)), fmt.Sprintf("%s: %v", where, e), map[string]interface{}{"phase": u.Kind, "where": where, "panic": fmt.Sprint(e)})
+			} else {
+				st := string(stack)
+				if len(st) > 3000 {
+					st = st[:3000]
+				}
+				x.res.Err = fmt.Sprintf("panic in harness code (%s) at %s: %v\n%s", site, where, e, st)
+			}
+			res = x.res
+		}
+	}()
 	x.lastAlloc = x.totalAlloc()
 	switch u.Kind {
+	case "audit":
+		x.audit()
 	case "rt":
 		r := &x.roots[u.Root]
 		first := true
